@@ -143,10 +143,20 @@ def check_sample(case, part):
     sK0, P0d, sv, pt_, gl = case["sigma_K0"], case["P0_days"], case["sigma_v"], case["poly_trend"], case["generate_linear"]
     Punit = case.get("P_unit", "day")
     Pu = {"day": u.day, "yr": u.yr}[Punit]
-    with pm.Model():
+    import thejoker.units as xu
+
+    custom = case.get("custom")  # user-declared priors on nonlinear parameters: their terms belong to ln_prior too
+    with pm.Model() as model:
         svq = [sv[i] * u.km / u.s / u.day**i for i in range(pt_)]
+        kw, pars = {}, {}
+        if custom in ("s_lognormal", "both"):
+            kw["s"] = xu.with_unit(pm.LogNormal("s", np.log(0.4), 0.6), u.km / u.s)
+        if custom in ("omega_vonmises", "both"):
+            pars["omega"] = xu.with_unit(pm.VonMises("omega", 1.0, 2.0), u.rad)
+        if custom in ("M0_uniform",):
+            pars["M0"] = xu.with_unit(pm.Uniform("M0", 0.0, 2 * np.pi), u.rad)
         prior = tj.JokerPrior.default(P_min=(Pmin * u.day).to(Pu), P_max=(Pmax * u.day).to(Pu), sigma_K0=sK0 * u.km / u.s, P0=P0d * u.day,
-                                      sigma_v=svq if pt_ > 1 else svq[0], poly_trend=pt_)
+                                      sigma_v=svq if pt_ > 1 else svq[0], poly_trend=pt_, model=model, pars=pars if pars else None, **kw)
     for seed in case["seeds"]:
         c2 = dict(case, seed=seed)
         try:
@@ -167,6 +177,10 @@ def check_sample(case, part):
                 part.violation(c2, f"{ang} draws do not lie in one 2pi interval", observed=(a.min(), a.max()))
                 return
         decl = -np.log(s["P"].value) + st.beta(*KIPPING["Kipping13Global"]).logpdf(e)
+        if custom in ("s_lognormal", "both"):
+            decl = decl + st.lognorm(0.6, scale=0.4).logpdf(s["s"].to_value(u.km / u.s))
+        if custom in ("omega_vonmises", "both"):
+            decl = decl + st.vonmises(2.0, loc=1.0).logpdf(s["omega"].to_value(u.rad))
         if gl:
             K = s["K"].to_value(u.km / u.s)
             sigK = np.minimum(sK0 * (P / P0d) ** (-1.0 / 3.0) / np.sqrt(1 - e**2), 500.0)
@@ -219,6 +233,10 @@ def build(quick, seed):
                                 continue
                             samp.append(dict(kind="sample", P_lim=list(lim), sigma_K0=sK0, P0_days=P0d, sigma_v=[100.0, 0.5], poly_trend=pt_,
                                              generate_linear=gl, P_unit=Pu, size=16, seeds=[0, 1] if quick else [0, 1, 2, 3]))
+    for custom in ("s_lognormal", "omega_vonmises", "both", "M0_uniform"):
+        for gl in (False, True):
+            samp.append(dict(kind="sample", P_lim=[1.0, 1000.0], sigma_K0=30.0, P0_days=365.25, sigma_v=[100.0, 0.5], poly_trend=1, generate_linear=gl,
+                             P_unit="day", size=16, seeds=[0, 1], custom=custom))
     return cases, samp
 
 
